@@ -135,7 +135,7 @@ def run(ctx, out):
     reserve = 8 if ctx.quick else 60
     for k in range(n_random):
         if ctx.time_left() < reserve: out.notes.append(f'stopped after {k} random cases (budget)'); break
-        safe = rng.random() < 0.6
+        safe = rng.random() < 0.4
         for _ in range(40):
             desc = gs.random_desc(rng, safe=safe)
             ok, why = gs.nondegenerate(ctx.driver, desc)
